@@ -15,9 +15,10 @@ from (call number, entries offered) to `(sent, errno)` — that respects the sen
 import Nebula.Lemmas.WritebatchRun
 import Nebula.Lemmas.WritebatchProgress
 import Nebula.Lemmas.WritebatchDisable
+import Nebula.Lemmas.Sendmmsg
 
 namespace Nebula.Props.C26
-open Nebula.Writebatch Nebula.Lemmas.Writebatch List
+open Nebula.Writebatch Nebula.Lemmas.Writebatch Nebula.Lemmas.Sendmmsg List
 
 variable {δ : Type} [DecidableEq δ]
 
@@ -169,5 +170,85 @@ example :
       (scriptKern [⟨0, .eio⟩]) [⟨5, 0⟩, ⟨5, 0⟩, ⟨5, 0⟩] true [none, none]
     sentIdxs r.calls = [0, 1, 2] ∧ r.written = 3 ∧ r.gso = false ∧ r.calls.length = 3 := by
   decide +kernel
+
+/-! ## The sendmmsg wrapper (`w.sendFn` in production): retry loop around the raw syscall -/
+
+
+/-- What `batchWriter.sendmmsg` returns, for every script of raw syscall results: the first result that is
+neither EINTR nor one of the first three ENOBUFS.  It never returns EINTR, it swallows at most
+`enobufsRetries = 3` ENOBUFS and returns ENOBUFS only as the fourth one, every other errno — EAGAIN
+included — is returned at once, and the number of syscalls is the length of the swallowed prefix plus one. -/
+theorem sendmmsg_result (script : List Sendmmsg.Sys) (sent : Int) (err : Sendmmsg.Errno) (n : Nat)
+    (h : Sendmmsg.sendmmsg script = .ret sent err n) :
+    err ≠ .eintr ∧
+    ∃ pre o rest, script = pre ++ o :: rest ∧ o.r1 = sent ∧ o.errno = err ∧ n = pre.length + 1 ∧
+      (∀ x ∈ pre, x.errno = .eintr ∨ x.errno = .enobufs) ∧ cnt .enobufs pre ≤ 3 ∧
+      (err = .enobufs → cnt .enobufs pre = 3) := by
+  have := loop_spec script 0 0 (by decide)
+  rw [show Sendmmsg.loop script 0 0 = Sendmmsg.sendmmsg script from rfl, h] at this
+  simpa [Sendmmsg.enobufsRetries] using this
+
+theorem length_two_classes (l : List Sendmmsg.Sys) (h : ∀ x ∈ l, x.errno = .eintr ∨ x.errno = .enobufs) :
+    l.length = cnt .eintr l + cnt .enobufs l := by
+  induction l with
+  | nil => simp [cnt]
+  | cons x xs ih =>
+    have := ih (fun y hy => h y (List.mem_cons_of_mem _ hy))
+    rcases h x List.mem_cons_self with hx | hx <;>
+      simp only [cnt, List.filter_cons, hx, List.length_cons] at * <;> simp <;> omega
+
+theorem cnt_append (e : Sendmmsg.Errno) (a b : List Sendmmsg.Sys) : cnt e (a ++ b) = cnt e a + cnt e b := by
+  simp [cnt]
+
+/-- Termination bound: the loop returns after at most `#EINTR + 4` raw syscalls, where `#EINTR` is the number
+of EINTR answers the kernel gave.  There is no bound that does not mention the kernel's EINTRs
+(`sendmmsg_can_spin`). -/
+theorem sendmmsg_calls_bound (script : List Sendmmsg.Sys) (sent : Int) (err : Sendmmsg.Errno) (n : Nat)
+    (h : Sendmmsg.sendmmsg script = .ret sent err n) : n ≤ cnt .eintr script + 4 := by
+  obtain ⟨_, pre, o, rest, h1, _, _, h4, h5, h6, _⟩ := sendmmsg_result script sent err n h
+  have := length_two_classes pre h5
+  rw [h1, cnt_append]
+  omega
+
+/-- The loop returns as soon as the kernel gives an answer that is not retried: any errno other than
+EINTR/ENOBUFS (or success) anywhere in the script, or a fourth ENOBUFS, guarantees a return. -/
+theorem sendmmsg_returns (script : List Sendmmsg.Sys)
+    (h : (∃ x ∈ script, x.errno ≠ .eintr ∧ x.errno ≠ .enobufs) ∨ 4 ≤ cnt .enobufs script) :
+    ∃ sent err n, Sendmmsg.sendmmsg script = .ret sent err n := by
+  have := loop_spec script 0 0 (by decide)
+  rw [show Sendmmsg.loop script 0 0 = Sendmmsg.sendmmsg script from rfl] at this
+  cases hr : Sendmmsg.sendmmsg script with
+  | ret s e n => exact ⟨s, e, n, rfl⟩
+  | spinning n =>
+    rw [hr] at this
+    simp only [Sendmmsg.enobufsRetries] at this
+    exfalso
+    rcases h with ⟨x, hx, h1, h2⟩ | h
+    · rcases this.2.1 x hx with h | h
+      · exact h1 h
+      · exact h2 h
+    · omega
+
+/-- The code has no fairness-free bound: against a kernel that keeps answering EINTR the loop is still
+retrying after any number `N` of syscalls (the same policy as Go's `ignoringEINTRIO`; documented, not a
+defect under the property, which quantifies over outcomes of *returned* calls). -/
+theorem sendmmsg_can_spin (N : Nat) (r : Int) :
+    Sendmmsg.sendmmsg (List.replicate N ⟨r, .eintr⟩) = .spinning N := by
+  have : ∀ e c, Sendmmsg.loop (List.replicate N ⟨r, .eintr⟩) e c = .spinning (c + N) := by
+    induction N with
+    | zero => intro e c; simp [Sendmmsg.loop]
+    | succ N ih => intro e c; simp only [List.replicate_succ, Sendmmsg.loop, if_true]; rw [ih]; congr 1; omega
+  simpa [Sendmmsg.sendmmsg] using this 0 0
+
+/-- The contract `WriteBatch` relies on (`KernOK`) is inherited from the raw syscall: if no syscall reports
+more than `n` messages, `sendmmsg` does not either. -/
+theorem sendmmsg_sent_le (script : List Sendmmsg.Sys) (n : Int) (hs : ∀ x ∈ script, x.r1 ≤ n)
+    (sent : Int) (err : Sendmmsg.Errno) (k : Nat) (h : Sendmmsg.sendmmsg script = .ret sent err k) : sent ≤ n := by
+  obtain ⟨_, pre, o, rest, h1, h2, _⟩ := sendmmsg_result script sent err k h
+  rw [← h2]; exact hs o (by rw [h1]; simp)
+
+example : Sendmmsg.sendmmsg [⟨-1, .eintr⟩, ⟨-1, .enobufs⟩, ⟨-1, .enobufs⟩, ⟨-1, .eintr⟩, ⟨-1, .enobufs⟩, ⟨-1, .enobufs⟩, ⟨5, .ok⟩]
+    = .ret (-1) .enobufs 6 := by decide
+example : Sendmmsg.sendmmsg [⟨-1, .eagain⟩, ⟨5, .ok⟩] = .ret (-1) .eagain 1 := by decide
 
 end Nebula.Props.C26
